@@ -67,6 +67,13 @@ var rtVersions = []string{
 	"counter c by k\ncounter lseen\n/^(\\w+)$/ {\n  7 % (len($1) - len($1)) > 0 {\n    c[$1]++\n  }\n}\nlseen++\n",
 	// 16: the keys of version 5 in the other order (same number of keys, another list)
 	"counter c by j, k\ncounter lseen\n/^(\\w+)$/ {\n  c[$1][$1]++\n}\nlseen++\n",
+	// 17: a metric none of whose label sets Prometheus can take (a key called `prog` next to the
+	// program label): the scrape skips them, every time
+	"counter e by prog\ncounter lseen\n/^(\\w+)$/ {\n  e[$1]++\n}\nlseen++\n",
+	// 18, 19: a histogram and a gauge without keys (the histogram's datum exists from compile time on,
+	// like a scalar counter's; the gauge's from its first update), and the same with a comment-only edit
+	"histogram h buckets 1, 2, 4\ngauge g\ncounter lseen\n/^(\\w+)$/ {\n  h = len($1)\n  g++\n}\nlseen++\n",
+	"histogram h buckets 1, 2, 4\ngauge g\ncounter lseen\n/^(\\w+)$/ {\n  h = len($1)\n  g++\n}\nlseen++\n# edited\n",
 }
 
 type rtDecl struct {
